@@ -87,7 +87,7 @@ E_RunBegin(c) ==
   /\ mon' = [anySig |-> FALSE, realFail |-> FALSE, firstObs |-> NoObs, finalObs |-> NoObs,
              tbDraws |-> <<>>, gens |-> 0, passes |-> 0, fromFF |-> FALSE, failSeed |-> Zero,
              iters |-> 0, saved |-> NoStream, savedFile |-> "", finalRan |-> FALSE, invs |-> 0,
-             firstKind |-> "none", firstStream |-> NoStream, failDraws |-> <<>>, early |-> FALSE]
+             firstKind |-> "none", firstStream |-> NoStream, failDraws |-> <<>>, early |-> FALSE, ffStreams |-> {}]
 
 (* doCheck lists the fail files it is going to try: the -rapid.failfile one,
    then everything the discovery glob finds *)
@@ -153,7 +153,8 @@ E_Begin(kind, s, sd) ==
                          !.invs = @ + 1,
                          !.firstKind = IF mon.invs = 0 THEN kind ELSE @,
                          !.firstStream = IF mon.invs = 0 THEN s ELSE @,
-                         !.tbDraws = IF kind = "final" THEN <<>> ELSE @]
+                         !.tbDraws = IF kind = "final" THEN <<>> ELSE @,
+                         !.ffStreams = IF kind = "ff1" /\ mon.gens = 0 THEN @ \cup {s.id} ELSE @]
   /\ UNCHANGED <<cfg, ffq, ff, pend, valid, invalid, flag, e1, e2, buf, best, orig, sErr, cache, shrinks, rep, tbFailed, tbFailNow>>
 
 (* the property function ran: o is everything it did that matters to the engine *)
